@@ -25,6 +25,11 @@ func (s genericSortable) Swap(i, j int) {
 
 // Less is part of sort.Interface.
 func (s genericSortable) Less(i, j int) bool {
+	// Less leaves nil unordered with respect to everything, which is not an order a sort can
+	// use: nil elements sort first (as elements that lack the key do in SortByProperty)
+	if s[i] == nil || s[j] == nil {
+		return s[i] == nil && s[j] != nil
+	}
 	return Less(s[i], s[j])
 }
 
